@@ -410,9 +410,11 @@ variable {env : Env} {F : Frame} (hC : ClosedT env F) {rec : Rec} (hrec : RecOKT
   (root : Mod) (scope : List Stmt) (n : Stmt) (visiting : List NodeId) (S : List Nat) (inv : InvT env root scope n)
 include hC hrec inv
 
+omit hC hrec inv in
 theorem add_isRpc (e : Entry) (k : String) (v : Entry) : (e.add k v).d.isRpc = e.d.isRpc :=
   ((Evolve.add (io := false) e k v).keepsRpc rfl).1
 
+omit hC hrec inv in
 theorem merge_isRpc (e : Entry) (ns : Option String) (oe : Entry) : (e.merge ns oe).d.isRpc = e.d.isRpc :=
   ((Evolve.merge (io := false) e ns oe).keepsRpc rfl).1
 
